@@ -114,6 +114,22 @@ def r1(c, readers, n_logic):
                 c.check("C16.R1", "strip_unchanged" not in names, repo.loc(m, mp), f"{q}/make_pre->{call_name(b).split('.')[-1]}",
                         f"the pre handed to the patch builder is made from a diff that went through strip_unchanged, but {len(readers)} registered logic function(s) read UNCHANGED rows "
                         f"(e.g. {readers[0][0]}: {readers[0][3]}): this front end builds a different patch than the one that strips afterwards", key_text="strip-before-pre")
+                # the rows that reach make_pre are all the rows of the diff: no filtering comprehension / filter() between make_diff and make_pre (rows of one rule key are
+                # grouped across the whole level, so dropping UNCHANGED siblings row by row is stripping under another name)
+                if arg is not None:
+                    filt = [n_ for k_, n_ in pv.origins(arg, through_calls=False)
+                            if (k_ == "comp" and any(g.ifs for g in n_.generators)) or (k_ == "call" and call_name(n_) in ("filter", "itertools.filterfalse", "filterfalse"))]
+                    # the same in loop form (the canonical form of a filtering comprehension): `N = []; for r in D: if <cond>: N.append(r)`
+                    if isinstance(arg, ast.Name):
+                        for lp in [x for x in ast.walk(fn) if isinstance(x, ast.For) and id(x) not in nested]:
+                            for cond in [y for y in ast.walk(lp) if isinstance(y, ast.If)]:
+                                for ap in ast.walk(cond):
+                                    if isinstance(ap, ast.Call) and isinstance(ap.func, ast.Attribute) and ap.func.attr in ("append", "extend", "add") \
+                                            and isinstance(ap.func.value, ast.Name) and ap.func.value.id == arg.id:
+                                        filt.append(cond)
+                    c.check("C16.R1", not filt, repo.loc(m, filt[0] if filt else mp), f"{q}/make_pre-gets-every-row",
+                            f"the diff handed to make_pre is filtered first (`{(norm(filt[0].test) if isinstance(filt[0], ast.If) else norm(filt[0]))[:90] if filt else ''}`), but {len(readers)} registered logic function(s) read the "
+                            "UNCHANGED rows of their rule key: this front end builds a different patch than the one that hands over the whole diff", key_text="filtered-before-pre")
     c.floor("C16.R1", "make_pre->patch builder flows", sites, 2)
 
 
